@@ -242,6 +242,25 @@ def r3_convergence(R, sh: SolverShape) -> None:
             "get_check_values() omits the linker's own check variables", where=g.where)
     R.check(sel, gq, 'submodel-check-values', "each submodel's check variables at t are part of the test",
             "get_check_values() omits the submodels' check variables", where=g.where)
+    # the linker's own values share a dictionary with the submodels' (keyed by id): their key must be one no submodel can
+    # have - the linker's name, which the constructor keeps apart from the ids - not a fixed literal
+    for d_ in ast.walk(g.node):
+        pairs_ = []
+        if isinstance(d_, ast.Dict):
+            pairs_ = [(k_, v_) for k_, v_ in zip(d_.keys, d_.values) if k_ is not None]
+        elif isinstance(d_, ast.Assign) and isinstance(d_.targets[0], ast.Subscript):
+            pairs_ = [(d_.targets[0].slice, d_.value)]
+        for (k_, v_) in pairs_:
+            if any(isinstance(x, (ast.ListComp, ast.GeneratorExp)) and text(x.generators[0].iter) in ('self.check', "self.__dict__['check']") for x in ast.walk(v_)):
+                if isinstance(k_, ast.Constant):
+                    R.violation(gq, 'own-values-key-literal:' + text(k_),
+                                f"the linker's own check values are kept under the fixed key {text(k_)} in the dictionary that also holds the submodels' values by id: a submodel "
+                                f"whose id is {text(k_)} replaces them, and the linker's own check variables no longer take part in the convergence test (the period is declared "
+                                f"solved while they still move)", where=f'{g.module.relpath}:{k_.lineno}')
+                else:
+                    R.check(text(k_) in ('self.name', "self.__dict__['name']"), gq, 'own-values-key:' + text(k_)[:30],
+                            "the linker's own check values are kept under the linker's name (distinct from every submodel id)",
+                            f"the linker's own check values are kept under `{text(k_)}`, which a submodel id may equal", where=f'{g.module.relpath}:{k_.lineno}')
     # the submodel entries are those selected: loop over all submodels filtered by `k in submodels`, or over the selection
     # every iteration over the submodels is either over the selection itself or filtered by membership in it
     def over_all(it: ast.AST) -> bool:
